@@ -458,6 +458,9 @@ public:
         }
         std::set<std::string> names;
         for (const Column &c : cols) {
+            if (c.name.empty()) {
+                throw std::invalid_argument("Block::createDataFrame: column names must not be empty!");
+            }
             if (c.dtype == DataType::Nothing || !Variant::supports_type(c.dtype)) {
                 std::string msg = "Incompatible DataType for column ";
                 throw std::invalid_argument(msg + c.name);
